@@ -97,6 +97,20 @@ def r2_r3_edge_errors(ctx):
                         else:
                             ctx.ok("C19.R3", loc(fi), f"edge validator | {atoms} -> {len(ys)} problem(s)")
     ctx.table("C19.R3", table)
+    # direction of the declared-type compatibility test: the *output* type must be a subclass of the *input* type
+    nodes2 = {"src": _tb(outs={"0": "bool"}), "snk": _tb(ins={"x": "int"})}
+    paths = Interp(repo).explore(fi, env={"self.nodes": nodes2}, args={"edge": _edge("src", "0", "snk", kw="x")})
+    calls = [e for p in paths for e in p.effects if e.kind == "call" and e.data["name"] == "builtins.issubclass"]
+    if not calls:
+        ctx.undecided("C19.R3", loc(fi), "type compatibility of an edge (bool -> int) is not decided through issubclass")
+    else:
+        a = [vkey(x) for x in calls[0].data["args"]]
+        if not ("'bool'" in a[0] and "'int'" in a[1]):
+            ctx.violation("C19.R3", fi.qual, loc(fi, calls[0].node), "compatibility direction",
+                          f"edge from an output declared `bool` into a parameter declared `int`: compatibility is tested as issubclass({a[0]}, {a[1]}); it must be "
+                          f"issubclass(output type, parameter type) — reversed, bool -> int is rejected and int -> bool accepted")
+        else:
+            ctx.ok("C19.R3", loc(fi), "edge compatibility: issubclass(output type, parameter type)")
 
 
 def r4_build(ctx):
